@@ -11,6 +11,7 @@ own value.  For every constructed map every probe key on the half-step grid from
 Reference: the defining list of intervals, scanned linearly.
 """
 import itertools
+import math
 
 from mc.par import pmap
 from mc.report import Report
@@ -20,12 +21,24 @@ from windpyutils.structures.maps import ImmutIntervalMap
 CLS = "ImmutIntervalMap"
 
 
+BIG = 10 ** 12
+
+
 def grid_points(kind, g):
+    if kind == "big":       # large integers a few units apart (relative distance 1e-12)
+        return [0, BIG, BIG + 1, BIG + 5, BIG + 10, 2 * BIG]
+    if kind == "ulp":       # floats one unit in the last place apart
+        return [1.0, math.nextafter(1.0, 2.0), 2.0, math.nextafter(2.0, 3.0), 3.0]
     return list(range(g + 1)) if kind == "int" else [k / 2 for k in range(g + 1)]
 
 
 def probe_keys(kind, g):
-    """half-step grid from (min - half step) to (max + half step)"""
+    """half-step grid from (min - half step) to (max + half step); for the big / ulp grids every grid point and its
+    immediate neighbours on both sides"""
+    if kind == "big":
+        return sorted({p + d for p in grid_points(kind, g) for d in (-1, 0, 1)})
+    if kind == "ulp":
+        return sorted({q for p in grid_points(kind, g) for q in (math.nextafter(p, -math.inf), p, math.nextafter(p, math.inf))})
     if kind == "int":
         return [(k // 2 if k % 2 == 0 else k / 2) for k in range(-1, 2 * g + 2)]
     return [k / 4 for k in range(-1, 2 * g + 2)]
@@ -228,9 +241,11 @@ def run(report, tier):
                 "judged completely (construction outcome vs. the disjointness rule; if constructed: len, iteration and "
                 "every probe key on the half-step grid vs. a linear scan); non-trivial = constructed map with >= 2 "
                 "intervals (lookup has to pick among several ends)")
-    for kind in ("int", "halved"):
+    for kind in ("int", "halved", "big", "ulp"):
         pts = grid_points(kind, g)
         all_ivs = [(s, e) for s in pts for e in pts]
+        if kind in ("big", "ulp"):
+            maxn = 2 if tier == "quick" else 3
         tasks = [(kind, g, maxn, None)] + [(kind, g, maxn, (iv,)) for iv in all_ivs]
         total = None
         for cnt, dump in pmap(work, tasks):
